@@ -119,6 +119,10 @@ enum Kind {
     BadNextState(i32),
     ConfigWord,
     Blind,
+    /// the authentication service answers with an error
+    AuthFails,
+    /// cookie accepted, Encryption Response with a wrong verify token
+    InvalidResponse,
 }
 
 #[derive(Clone, Debug)]
@@ -185,6 +189,25 @@ fn generate(cli: &Cli) -> Vec<Case> {
         for _ in 0..cli.scaled(cli.tier.pick(4, 40)) {
             let (sc, status_expected, ping) = base_scenario(&mut rng, b);
             out.push(Case { sc, class: format!("{bname}/baseline"), kind: Kind::Baseline, intent: Some(b.intent), status_expected, ping, honest_enc_response: b.intent != Intent::Status });
+        }
+        if b.intent != Intent::Status {
+            // the authentication service fails: nothing may follow the Encryption Request
+            let (mut sc, status_expected, ping) = base_scenario(&mut rng, b);
+            sc.adapters.auth = Outcome::Err;
+            out.push(Case { sc, class: format!("{bname}/authentication-service-fails"), kind: Kind::AuthFails, intent: Some(b.intent), status_expected, ping, honest_enc_response: true });
+        }
+        if b.intent == Intent::Transfer && b.with_secret {
+            // a valid cookie is presented, but the Encryption Response does not carry this
+            // connection's verify token: Login Success must not be sent
+            for enc in [EncVariant::WrongToken(rng.bytes(32)), EncVariant::FlippedToken, EncVariant::StaleToken, EncVariant::WrongToken(vec![])] {
+                let (mut sc, status_expected, ping) = base_scenario(&mut rng, b);
+                let id = mk::ident(&mut rng, "cookie");
+                let ck = crate::cookie::build(&mut rng, crate::cookie::Class::Valid, sc.cfg.secret.as_deref().unwrap_or(b"x"), &sc.cfg.client_addr, 6 * 3600, &id, &[]);
+                sc.client.cookies = vec![(AUTH_KEY.to_string(), ck.payload)];
+                let label = enc.label();
+                sc.client.enc = enc;
+                out.push(Case { sc, class: format!("{bname}/valid-cookie/invalid-encryption-response-{label}"), kind: Kind::InvalidResponse, intent: Some(b.intent), status_expected, ping, honest_enc_response: false });
+            }
         }
         // slow clients: a pause of more than one / two keep-alive periods before each client step
         // (nothing may be sent to the client out of order meanwhile, and the exchange still completes)
@@ -330,6 +353,8 @@ fn check(case: &Case, run: &Run) -> Vec<Finding> {
         Kind::BadNextState(_) => "bad-next-state".into(),
         Kind::ConfigWord => "config-word".into(),
         Kind::Blind => "blind-word".into(),
+        Kind::AuthFails => "authentication-service-fails".into(),
+        Kind::InvalidResponse => "invalid-encryption-response".into(),
     };
     // G1: the word is in the grammar
     if let Err((i, why)) = accept_word(case.intent, &names) {
@@ -457,6 +482,7 @@ pub fn run_prop(cli: &Cli) -> i32 {
             Kind::BadNextState(_) => report.count("unknown next-state scripts", 1),
             Kind::ConfigWord => report.count("configuration-phase words", 1),
             Kind::Blind => report.count("blind pipelined words", 1),
+            Kind::AuthFails | Kind::InvalidResponse => report.count("failed-authentication scripts", 1),
         }
         for (fi, w) in findings {
             report.violation(&fi.signature, &fi.what, w);
